@@ -192,6 +192,22 @@ def lattice_xy(chk, rng, count):
                               % (what, max(float(np.max(np.abs(np.asarray(la_i, dtype=float) - la_f))), float(np.max(np.abs(np.asarray(lo_i, dtype=float) - lo_f)))),
                                  max(float(np.max(np.abs(np.asarray(xb) - np.asarray(xa, dtype=float)))), float(np.max(np.abs(np.asarray(yb) - np.asarray(ya, dtype=float))))), ref),
                               {"kind": "geo_integer_offsets", "form": what, "ref": ref}, klass={"check": "integer_offsets"})
+    # a LARGE fine raster (a 300 x 300 map of one-metre cells, plain Python floats as reference): every cell comes back where the
+    # scalar transform puts it, and neighbouring cells are one metre apart
+    xr, yr = np.meshgrid(np.arange(-150.0, 150.0, 1.0), np.arange(-150.0, 150.0, 1.0))
+    for ref in ((47.2031, 11.3052), (-33.4567, 151.2093)):
+        n += 1
+        la_r, lo_r = xy_to_latlon(xr, yr, ref[0], ref[1])
+        worst = 0.0
+        for j_, i_ in ((0, 0), (299, 299), (150, 151), (17, 233), (233, 17), (150, 150)):
+            ls, os_ = xy_to_latlon(float(xr[j_, i_]), float(yr[j_, i_]), ref[0], ref[1])
+            worst = max(worst, abs(float(la_r[j_, i_]) - float(ls)), abs(float(lo_r[j_, i_]) - float(os_)))
+        xb_, yb_ = latlon_to_xy(float(la_r[150, 151]), float(lo_r[150, 151]), ref[0], ref[1])
+        xa_, ya_ = latlon_to_xy(float(la_r[150, 150]), float(lo_r[150, 150]), ref[0], ref[1])
+        step = math.hypot(xb_ - xa_, yb_ - ya_)
+        if np.shape(la_r) != xr.shape or worst > 1e-11 or abs(step - 1.0) > 1e-5:
+            chk.violation("a 300 x 300 raster of one-metre cells through xy_to_latlon: cells differ from the scalar transform by up to %.3g deg, neighbouring cells come back %.6f m apart (reference %s)" % (worst, step, ref),
+                          {"kind": "geo_large_raster", "ref": ref}, klass={"check": "large_raster"})
     # the same TowerConfig objects in a second configuration with another reference origin, and re-localised in place
     from bldfm.config_parser import BLDFMConfig, DomainConfig, MetConfig, TowerConfig
     tw = [TowerConfig(name="a", lat=47.2031, lon=11.3052, z_m=3.0), TowerConfig(name="b", lat=47.1975, lon=11.2969, z_m=5.0)]
